@@ -7,7 +7,7 @@ export PIP_NO_INDEX=1
 W=/opt/veriftools/wheels
 mkdir -p .deps
 need=""
-/venv/bin/python - <<'E' || need=1
+/venv/bin/python - 2>/dev/null <<'E' || need=1
 import sys
 sys.path.insert(0, '.deps')
 import mpmath, hypothesis, sortedcontainers, attr
